@@ -18,6 +18,8 @@
 """
 from __future__ import annotations
 
+from harness import REPO_SRC  # noqa: E402
+
 import itertools
 import json
 import multiprocessing
@@ -42,7 +44,7 @@ Emit == PrintT(ToJson([src |-> src, ops |-> ops, pos |-> tok.pos, len |-> tok.le
 
 
 def tokenpos_part(ctx, quick):
-    sys.path.insert(0, "/repo/src")
+    sys.path.insert(0, REPO_SRC)
     from chameleon.tokenize import Token
     wd = workdir("tokpos")
     try:
@@ -101,7 +103,7 @@ def tokenpos_part(ctx, quick):
 
 def splitter_part(ctx, quick):
     """every clause string over a small alphabet: all parts of split_parts / parse_defines faithful"""
-    sys.path.insert(0, "/repo/src")
+    sys.path.insert(0, REPO_SRC)
     from chameleon.tal import split_parts, parse_defines, parse_attributes
     from chameleon.tokenize import Token
     alpha = ["x", " ", ";", "&amp;", "1", "é"]
@@ -198,7 +200,7 @@ def catalogue(rnd, quick):
 
 
 def _cases(cases):
-    sys.path.insert(0, "/repo/src")
+    sys.path.insert(0, REPO_SRC)
     from chameleon import PageTemplate
     from chameleon.exc import TemplateError
     out = []
